@@ -22,6 +22,7 @@ func init() {
 			{"C11.flag-defaults", "cache repair is on unless switched off", 1, func(c *Ctx) {
 				c.flagDefaults(map[string]flagSpec{"cache-repair": {"true", "cmdStoreOptions.cacheRepair", 1}})
 			}},
+			{"C11.store-overwrites", "the local cache store always writes and renames a fresh file (an invalid cached chunk is replaced by the refill; shared with C08)", 3, c08Typestate},
 			{"C11.shapes", "the CLI wraps stores as Cache(Router(FailoverGroup...), RepairableCache?)", 3, c11Shapes},
 		},
 	})
